@@ -41,6 +41,7 @@ type cutRelay struct {
 	mu     sync.Mutex
 	conns  []net.Conn
 	count  int32
+	down   int32 // while set, every new connection is hung up on at once (the server cannot be reached)
 }
 
 func newCutRelay(target string) *cutRelay {
@@ -54,6 +55,10 @@ func newCutRelay(target string) *cutRelay {
 			c, err := ln.Accept()
 			if err != nil {
 				return
+			}
+			if atomic.LoadInt32(&r.down) == 1 {
+				c.Close()
+				continue
 			}
 			atomic.AddInt32(&r.count, 1)
 			s, err := net.Dial("tcp", r.target)
@@ -319,7 +324,24 @@ func init() {
 				time.Sleep(30 * time.Millisecond)
 				i++
 			case "wait":
-				if a[i+1].I < 0 {
+				if a[i+1].I == -1000 || a[i+1].I == -1001 {
+					// wait -1000: every server becomes unreachable (sessions cut, new connections hung up on); wait -1001: reachable again
+					if a[i+1].I == -1000 {
+						for _, r := range relays {
+							if r != nil {
+								atomic.StoreInt32(&r.down, 1)
+								r.cut()
+							}
+						}
+						time.Sleep(30 * time.Millisecond)
+					} else {
+						for _, r := range relays {
+							if r != nil {
+								atomic.StoreInt32(&r.down, 0)
+							}
+						}
+					}
+				} else if a[i+1].I < 0 {
 					parallel = int(-a[i+1].I) // wait -k: the next k `conn` operations run concurrently
 				} else {
 					time.Sleep(time.Duration(a[i+1].I) * time.Millisecond)
